@@ -1026,18 +1026,12 @@ impl Family for Cw4Family {
     fn props(&self) -> Vec<PropSpec> {
         vec![
             PropSpec {
-                id: "C09",
-                quick_cases: 1500,
-                thorough_cases: 3500,
-                floor: 190,
+                id: "C09", quick_cases: 5000, thorough_cases: 3500, floor: 633,
                 rule: "case = cw4-group (0-6 initial members from a 6-address pool, duplicates/invalid occasionally) or cw4-stake (random tokens_per_weight/min_bond, native denom) + up to 25 (thorough 50) blocks of 0-3 (4) transactions, heights advancing by 1..5 (0 = same block, incl. the instantiation block): UpdateMembers with overlapping add/remove lists, same-value re-weights, removals and re-adds resp. Bond/Unbond with state-relative amounts around min_bond and the whole stake. After every transaction: TotalWeight == sum of paged ListMembers == (cw4-group) reference model; Member == listing; raw TOTAL_KEY / member_key(addr) == smart queries; Member/TotalWeight at the current height == value at the start of this block. At the end of every block: Member{addr,at_height:h} for all 6 pool addresses and (cw4-group) TotalWeight{at_height:h} for every h from instantiation-2 to now+2 against the per-block history. Non-trivial: >=1 address whose weight changed >=2 times within one block (queried at that height and the next) and >=1 removal later followed by a re-add; distinct = distinct canonical JSON of the case.",
                 assumptions: ASSUME,
             },
             PropSpec {
-                id: "C14",
-                quick_cases: 30_000,
-                thorough_cases: 50_000,
-                floor: 1900,
+                id: "C14", quick_cases: 80000, thorough_cases: 50_000, floor: 5066,
                 rule: "same case type, up to 16 (thorough 30) blocks of 0-5 (6) transactions weighted towards UpdateAdmin (to another address / to none), AddHook/RemoveHook (4 hook addresses + an invalid one) and UpdateMembers resp. Bond/Unbond, sent by the current admin, former admins and strangers. Around every call ListMembers/Hooks/Admin are compared: membership (cw4-group), hook list and admin differ only after a successful call of the pre-call admin (never once the admin is none); every MemberChangedHook message of every successful call is decoded and its entries are composed per key (first old == pre weight, entries chain, last new == post weight, keys only addresses named by the call, every changed address present); when weights changed, each registered hook got exactly one notification and nobody else got one. Non-trivial: a successful UpdateMembers with an address in both lists while >=1 hook is registered, or a weight change notified to >=2 hooks, then a successful RemoveHook, then another notified weight change.",
                 assumptions: ASSUME,
             },
